@@ -914,7 +914,7 @@ bool Chunk::IsNewlineBetween(const Chunk *other) const
 void shift_the_rest_of_the_line(Chunk *first)
 {
    // shift all the tokens in this line to the right  Issue #3236
-   for (Chunk *temp = first; ; temp = temp->GetNext())
+   for (Chunk *temp = first; temp->IsNotNullChunk(); temp = temp->GetNext())
    {
       temp->SetColumn(temp->GetColumn() + 1);                         // Issue #3236
       temp->SetOrigCol(temp->GetOrigCol() + 1);                       // Issue #3236
